@@ -90,21 +90,35 @@ pub fn check_hex_value(run: &mut Run, x: u64) {
     }
 }
 
-/// what parsing a string must give: the exact value when it is all hex digits (optional leading '+', as documented for
-/// from_str_radix) and fits 64 bits, an error otherwise
-fn hex_expect(s: &str) -> Option<u64> {
+#[derive(Debug, PartialEq)]
+enum HexExpect {
+    /// 1-16 lower-case hex digits: must parse to exactly this value
+    Must(u64),
+    /// a value that fits but is written in a form the property does not pin down (leading '+', upper-case digits, more than 16
+    /// characters because of leading zeros): may be accepted or rejected, but if accepted it must be this value
+    May(u64),
+    /// empty, non-hex characters, or wider than 64 bits: must be an error
+    Reject,
+}
+
+fn hex_expect(s: &str) -> HexExpect {
     let body = s.strip_prefix('+').unwrap_or(s);
     if body.is_empty() || !body.bytes().all(|b| b.is_ascii_hexdigit()) {
-        return None;
+        return HexExpect::Reject;
     }
     let mut v: u128 = 0;
     for b in body.bytes() {
         v = v * 16 + (b as char).to_digit(16).unwrap() as u128;
         if v > u64::MAX as u128 {
-            return None;
+            return HexExpect::Reject;
         }
     }
-    Some(v as u64)
+    let canonical_form = s.len() <= 16 && s.bytes().all(|b| b.is_ascii_digit() || (b'a'..=b'f').contains(&b));
+    if canonical_form {
+        HexExpect::Must(v as u64)
+    } else {
+        HexExpect::May(v as u64)
+    }
 }
 
 pub fn check_hex_string(run: &mut Run, s: &str) {
@@ -119,14 +133,15 @@ pub fn check_hex_string(run: &mut Run, s: &str) {
     };
     let want = hex_expect(s);
     if run.wants_sample("hex_string") {
-        run.sample("hex_string", || json!({"string": s, "hex_to_u64": format!("{:?}", got), "expected": want.map(hu)}));
+        run.sample("hex_string", || json!({"string": s, "hex_to_u64": format!("{:?}", got), "expected": format!("{:?}", want)}));
     }
     match (got, want) {
-        (Ok(a), Some(b)) if a == b => run.count("hex.parsed_ok"),
-        (Err(_), None) => run.count("hex.rejected"),
-        (Ok(a), Some(b)) => run.violation("C05.hex_parse", case(), format!("parsed {} but the value is {}", hu(a), hu(b))),
-        (Ok(a), None) => run.violation("C05.hex_parse", case(), format!("accepted an invalid / too wide string as {}", hu(a))),
-        (Err(e), Some(b)) => run.violation("C05.hex_parse", case(), format!("rejected a valid string (value {}): {e}", hu(b))),
+        (Ok(a), HexExpect::Must(b)) | (Ok(a), HexExpect::May(b)) if a == b => run.count("hex.parsed_ok"),
+        (Err(_), HexExpect::Reject) => run.count("hex.rejected"),
+        (Err(_), HexExpect::May(_)) => run.count("hex.rejected_unpinned_form"),
+        (Ok(a), HexExpect::Must(b)) | (Ok(a), HexExpect::May(b)) => run.violation("C05.hex_parse", case(), format!("parsed {} but the value is {}", hu(a), hu(b))),
+        (Ok(a), HexExpect::Reject) => run.violation("C05.hex_parse", case(), format!("accepted an invalid / too wide string as {}", hu(a))),
+        (Err(e), HexExpect::Must(b)) => run.violation("C05.hex_parse", case(), format!("rejected a valid string (value {}): {e}", hu(b))),
     }
     let mut h = 11u64;
     for b in s.bytes() {
